@@ -40,12 +40,12 @@ func sh(name string) int { return shapeIdx[name] }
 
 // rotations: plausible next served sets for a served set
 var successors = map[string][]string{
-	"ab":             {"ab", "abc", "bc", "ab+unknown-kty", "a(enc)+b", "a(nouse)+b", "a", "cd"},
+	"ab":             {"ab", "abc", "bc", "ab+unknown-kty", "a(enc)+b", "a(nouse)+b", "a", "cd", "empty"},
 	"abc":            {"abc", "bc", "ab", "cd"},
-	"bc":             {"bc", "cd", "abc", "ab"},
+	"bc":             {"bc", "cd", "abc", "ab", "empty"},
 	"cd":             {"cd", "ab", "bc", "empty"},
-	"a":              {"a", "ab", "a+kidless1", "kidless1", "mixed-kty"},
-	"kidless1":       {"kidless1", "kidless2", "a+kidless1", "a"},
+	"a":              {"a", "ab", "a+kidless1", "kidless1", "mixed-kty", "empty"},
+	"kidless1":       {"kidless1", "kidless2", "a+kidless1", "a", "empty"},
 	"kidless2":       {"kidless2", "kidless1", "ab"},
 	"a+kidless1":     {"a+kidless1", "a", "kidless1", "ab"},
 	"ab+unknown-kty": {"ab+unknown-kty", "ab", "abc"},
